@@ -20,6 +20,8 @@ impl Deferable for Guard {
         F: FnOnce(*mut RcInner<T>),
     {
         debug_assert!(!ptr.is_null());
+        #[cfg(feature = "circ_verif")]
+        crate::verif::ev(crate::verif::event::RC_DEFER, ptr as usize, 0);
         self.defer_unchecked(move || f(ptr));
     }
 }
@@ -168,6 +170,8 @@ impl<T> RcInner<T> {
     ///
     /// The given `ptr` must not be shared across more than one thread.
     pub(crate) unsafe fn dealloc(ptr: *mut Self) {
+        #[cfg(feature = "circ_verif")]
+        crate::verif::ev(crate::verif::event::DEALLOC, ptr as usize, 0);
         drop(Box::from_raw(ptr));
     }
 
@@ -183,6 +187,8 @@ impl<T> RcInner<T> {
 
     #[inline]
     pub(crate) fn increment_strong(&self) -> bool {
+        #[cfg(feature = "circ_verif")]
+        crate::verif::yp(crate::verif::site::INCS_ADD1);
         let val = State::from_raw(self.state.fetch_add(COUNT, Ordering::SeqCst));
         if val.destructed() {
             return false;
@@ -190,6 +196,8 @@ impl<T> RcInner<T> {
         if val.strong() == 0 {
             // The previous fetch_add created a permission to run decrement again.
             // Now create an actual reference.
+            #[cfg(feature = "circ_verif")]
+            crate::verif::yp(crate::verif::site::INCS_ADD2);
             self.state.fetch_add(COUNT, Ordering::SeqCst);
         }
         true
@@ -197,6 +205,10 @@ impl<T> RcInner<T> {
 
     #[inline]
     unsafe fn try_dealloc(ptr: *mut Self) {
+        #[cfg(feature = "circ_verif")]
+        crate::verif::ev(crate::verif::event::TRY_DEALLOC, ptr as usize, 0);
+        #[cfg(feature = "circ_verif")]
+        crate::verif::yp(crate::verif::site::TRY_DEALLOC_LOAD);
         if State::from_raw((*ptr).state.load(Ordering::SeqCst)).weak() > 0 {
             Self::decrement_weak(ptr, None);
         } else {
@@ -206,11 +218,15 @@ impl<T> RcInner<T> {
 
     #[inline]
     pub(crate) fn increment_weak(&self, count: u32) {
+        #[cfg(feature = "circ_verif")]
+        crate::verif::yp(crate::verif::site::INCW_LOAD);
         let mut old = State::from_raw(self.state.load(Ordering::SeqCst));
         while !old.weaked() {
             // In this case, `increment_weak` must have been called from `Rc::downgrade`,
             // guaranteeing weak > 0, so it can’t be incremented from 0.
             debug_assert!(old.weak() != 0);
+            #[cfg(feature = "circ_verif")]
+            crate::verif::yp(crate::verif::site::INCW_CAS);
             match self.state.compare_exchange(
                 old.as_raw(),
                 old.with_weaked(true).add_weak(count).as_raw(),
@@ -221,6 +237,8 @@ impl<T> RcInner<T> {
                 Err(curr) => old = State::from_raw(curr),
             }
         }
+        #[cfg(feature = "circ_verif")]
+        crate::verif::yp(crate::verif::site::INCW_ADD1);
         if State::from_raw(
             self.state
                 .fetch_add(count as u64 * WEAK_COUNT, Ordering::SeqCst),
@@ -228,6 +246,8 @@ impl<T> RcInner<T> {
         .weak()
             == 0
         {
+            #[cfg(feature = "circ_verif")]
+            crate::verif::yp(crate::verif::site::INCW_ADD2);
             self.state.fetch_add(WEAK_COUNT, Ordering::SeqCst);
         }
     }
@@ -235,15 +255,23 @@ impl<T> RcInner<T> {
     #[inline]
     pub(crate) unsafe fn decrement_weak(ptr: *mut Self, guard: Option<&Guard>) {
         debug_assert!(State::from_raw((*ptr).state.load(Ordering::SeqCst)).weak() >= 1);
+        #[cfg(feature = "circ_verif")]
+        crate::verif::yp(crate::verif::site::DECW_SUB);
         if State::from_raw((*ptr).state.fetch_sub(WEAK_COUNT, Ordering::SeqCst)).weak() == 1 {
+            #[cfg(feature = "circ_verif")]
+            crate::verif::yp(crate::verif::site::DECW_DEFER);
             guard.defer_with_inner(ptr, |inner| Self::try_dealloc(inner));
         }
     }
 
     #[inline]
     pub(crate) fn is_not_destructed(&self) -> bool {
+        #[cfg(feature = "circ_verif")]
+        crate::verif::yp(crate::verif::site::IND_LOAD);
         let mut old = State::from_raw(self.state.load(Ordering::SeqCst));
         while !old.destructed() && old.strong() == 0 {
+            #[cfg(feature = "circ_verif")]
+            crate::verif::yp(crate::verif::site::IND_CAS);
             match self.state.compare_exchange(
                 old.as_raw(),
                 old.add_strong(1).as_raw(),
@@ -261,11 +289,17 @@ impl<T> RcInner<T> {
 impl<T: RcObject> RcInner<T> {
     #[inline]
     pub(crate) unsafe fn decrement_strong(ptr: *mut Self, count: u32, guard: Option<&Guard>) {
+        #[cfg(feature = "circ_verif")]
+        crate::verif::yp(crate::verif::site::DECS_EPOCH);
         let epoch = global_epoch();
         // Should mark the current epoch on the strong count with CAS.
         let hit_zero = loop {
+            #[cfg(feature = "circ_verif")]
+            crate::verif::yp(crate::verif::site::DECS_LOAD);
             let curr = State::from_raw((*ptr).state.load(Ordering::SeqCst));
             debug_assert!(curr.strong() >= count);
+            #[cfg(feature = "circ_verif")]
+            crate::verif::yp(crate::verif::site::DECS_CAS);
             if (*ptr)
                 .state
                 .compare_exchange(
@@ -280,6 +314,8 @@ impl<T: RcObject> RcInner<T> {
             }
         };
 
+        #[cfg(feature = "circ_verif")]
+        crate::verif::yp(crate::verif::site::DECS_DEFER);
         let trigger_recl = |guard: &Guard| {
             if hit_zero {
                 guard.defer_with_inner(ptr, |inner| Self::try_destruct(inner));
@@ -297,6 +333,10 @@ impl<T: RcObject> RcInner<T> {
 
     #[inline]
     unsafe fn try_destruct(ptr: *mut Self) {
+        #[cfg(feature = "circ_verif")]
+        crate::verif::ev(crate::verif::event::TD_ATTEMPT, ptr as usize, 0);
+        #[cfg(feature = "circ_verif")]
+        crate::verif::yp(crate::verif::site::TD_LOAD);
         let mut old = State::from_raw((*ptr).state.load(Ordering::SeqCst));
         debug_assert!(!old.destructed());
         loop {
@@ -304,6 +344,8 @@ impl<T: RcObject> RcInner<T> {
                 Self::decrement_strong(ptr, 1, None);
                 return;
             }
+            #[cfg(feature = "circ_verif")]
+            crate::verif::yp(crate::verif::site::TD_CAS);
             match (*ptr).state.compare_exchange(
                 old.as_raw(),
                 old.with_destructed(true).as_raw(),
@@ -320,6 +362,8 @@ impl<T: RcObject> RcInner<T> {
 
 #[inline]
 unsafe fn dispose<T: RcObject>(inner: *mut RcInner<T>) {
+    #[cfg(feature = "circ_verif")]
+    crate::verif::ev(crate::verif::event::DESTRUCTED_SET, inner as usize, 0);
     DISPOSE_COUNTER.with(|counter| {
         let guard = &cs();
         dispose_general_node(inner, 0, counter, guard);
@@ -342,20 +386,28 @@ unsafe fn dispose_general_node<T: RcObject>(
     counter.set(count + 1);
     if count % 128 == 0 {
         if let Some(local) = guard.local.as_ref() {
+            #[cfg(feature = "circ_verif")]
+            crate::verif::yp(crate::verif::site::DISP_REPIN);
             local.repin_without_collect();
         }
     }
 
     if depth >= 1024 {
         // Prevent a potential stack overflow.
+        #[cfg(feature = "circ_verif")]
+        crate::verif::ev(crate::verif::event::CASCADE_DEFER, ptr as usize, 0);
         guard.defer_with_inner(rc, |rc| RcInner::try_destruct(rc));
         return;
     }
 
+    #[cfg(feature = "circ_verif")]
+    crate::verif::yp(crate::verif::site::DISP_LOAD);
     let state = State::from_raw(rc.state.load(Ordering::SeqCst));
     let node_epoch = state.epoch();
     debug_assert_eq!(state.strong(), 0);
 
+    #[cfg(feature = "circ_verif")]
+    crate::verif::yp(crate::verif::site::DISP_EPOCH);
     let curr_epoch = global_epoch();
     let modu: Modular<EPOCH_WIDTH> = Modular::new(curr_epoch as isize + 1);
     let mut outgoings = Vec::new();
@@ -364,9 +416,13 @@ unsafe fn dispose_general_node<T: RcObject>(
     // old enough, `modu.le` may return false.
     if depth == 0 || modu.le(node_epoch as _, curr_epoch as isize - 3) {
         // The current node is immediately reclaimable.
+        #[cfg(feature = "circ_verif")]
+        crate::verif::ev(crate::verif::event::DESTRUCT_BEGIN, ptr as usize, depth);
         rc.data_mut().pop_edges(&mut outgoings);
         unsafe {
             ManuallyDrop::drop(&mut rc.storage);
+            #[cfg(feature = "circ_verif")]
+            crate::verif::yp(crate::verif::site::DISP_WEAKED);
             if State::from_raw(rc.state.load(Ordering::SeqCst)).weaked() {
                 RcInner::decrement_weak(rc, Some(guard));
             } else {
@@ -383,7 +439,11 @@ unsafe fn dispose_general_node<T: RcObject>(
             let link_epoch = next_ptr.high_tag() as u32;
 
             // Decrement next node's strong count and update its epoch.
+            #[cfg(feature = "circ_verif")]
+            crate::verif::yp(crate::verif::site::DISP_CHILD);
             let next_cnt = loop {
+                #[cfg(feature = "circ_verif")]
+                crate::verif::yp(crate::verif::site::DISP_CHILD_CAS);
                 let cnt_curr = State::from_raw(next_ref.state.load(Ordering::SeqCst));
                 let next_epoch =
                     modu.max(&[node_epoch as _, link_epoch as _, cnt_curr.epoch() as _]);
@@ -403,6 +463,8 @@ unsafe fn dispose_general_node<T: RcObject>(
                 }
             };
 
+            #[cfg(feature = "circ_verif")]
+            crate::verif::yp(crate::verif::site::DISP_SIBLING);
             // If the reference count hit zero, try dispose it recursively.
             if next_cnt.strong() == 0 {
                 dispose_general_node(next_ptr.as_raw(), depth + 1, counter, guard);
@@ -410,6 +472,70 @@ unsafe fn dispose_general_node<T: RcObject>(
         }
     } else {
         // It is likely to be unsafe to reclaim right now.
+        #[cfg(feature = "circ_verif")]
+        crate::verif::ev(crate::verif::event::CASCADE_DEFER, ptr as usize, 1);
         guard.defer_with_inner(rc, |rc| RcInner::try_destruct(rc));
+    }
+}
+
+/// Shims exporting the private count-word and modular-epoch helpers for direct enumeration.
+#[cfg(feature = "circ_verif")]
+#[allow(missing_docs)]
+pub mod vshim {
+    use super::*;
+
+    pub const EPOCH_BITS: u32 = EPOCH_WIDTH;
+    pub const STRONG_BITS: u32 = STRONG_WIDTH;
+    pub const WEAK_BITS: u32 = WEAK_WIDTH;
+
+    /// (epoch, strong, weak, destructed, weaked)
+    pub fn decode(w: u64) -> (u32, u32, u32, bool, bool) {
+        let s = State::from_raw(w);
+        (s.epoch(), s.strong(), s.weak(), s.destructed(), s.weaked())
+    }
+    pub fn initial(init_strong: u32) -> u64 {
+        (init_strong as u64) * COUNT + WEAK_COUNT
+    }
+    pub fn with_epoch(w: u64, e: usize) -> u64 {
+        State::from_raw(w).with_epoch(e).as_raw()
+    }
+    pub fn add_strong(w: u64, v: u32) -> u64 {
+        State::from_raw(w).add_strong(v).as_raw()
+    }
+    pub fn sub_strong(w: u64, v: u32) -> u64 {
+        State::from_raw(w).sub_strong(v).as_raw()
+    }
+    pub fn add_weak(w: u64, v: u32) -> u64 {
+        State::from_raw(w).add_weak(v).as_raw()
+    }
+    pub fn sub_weak(w: u64) -> u64 {
+        w - WEAK_COUNT
+    }
+    pub fn with_destructed(w: u64, d: bool) -> u64 {
+        State::from_raw(w).with_destructed(d).as_raw()
+    }
+    pub fn with_weaked(w: u64, d: bool) -> u64 {
+        State::from_raw(w).with_weaked(d).as_raw()
+    }
+    pub fn modular_max(max: isize, nums: &[isize]) -> isize {
+        Modular::<EPOCH_WIDTH>::new(max).max(nums)
+    }
+    pub fn modular_le(max: isize, a: isize, b: isize) -> bool {
+        Modular::<EPOCH_WIDTH>::new(max).le(a, b)
+    }
+    /// The test `dispose_general_node` applies to a non-root node stamped `node_epoch`.
+    pub fn reclaim_decision(curr_epoch: usize, node_epoch: u32) -> bool {
+        let modu: Modular<EPOCH_WIDTH> = Modular::new(curr_epoch as isize + 1);
+        modu.le(node_epoch as _, curr_epoch as isize - 3)
+    }
+    /// The stamp `dispose_general_node` gives to a child.
+    pub fn child_stamp(curr_epoch: usize, node_epoch: u32, link_epoch: u32, child_epoch: u32) -> u32 {
+        let modu: Modular<EPOCH_WIDTH> = Modular::new(curr_epoch as isize + 1);
+        modu.max(&[node_epoch as _, link_epoch as _, child_epoch as _]) as u32
+    }
+    /// # Safety
+    /// `addr` must be the address of a live `RcInner<T>`.
+    pub unsafe fn state_of<T>(addr: usize) -> u64 {
+        (*(addr as *const RcInner<T>)).state.load(Ordering::SeqCst)
     }
 }
